@@ -168,13 +168,14 @@ def build_trace(instances, results, profile):
                 trace.append({"ev": "base", "li": li, "S": e["S"]})
                 base = len(trace)
             elif e["ev"] == "cand":
-                trace.append({"ev": "cand", "li": li, "bi": base, "swap": e["swap"][:60], "S": e["S"]})
+                trace.append({"ev": "cand", "li": li, "bi": base, "swap": e["swap"][:60], "sw": e["sw"], "S": e["S"]})
                 ncand += 1
             elif e["ev"] == "candfail":
                 trace.append({"ev": "candfail", "li": li, "swap": e["swap"][:60], "msg": e["msg"]})
             elif e["ev"] == "enum":
                 trace.append({"ev": "enum", "li": li, "bi": base, "ok": e["ok"], "panic": e["panic"], "n": e["n"],
-                              "logged": e["logged"], "hb": e["hb"], "ha": e["ha"], "msg": e.get("msg", "")})
+                              "logged": e["logged"], "hb": e["hb"], "ha": e["ha"], "msg": e.get("msg", ""),
+                              "all": e["all"]})
                 nenum += e["n"]
             elif e["ev"] == "end":
                 status = e["status"]
